@@ -103,16 +103,34 @@ def _child(fn):
 
 
 def _map_child(case, storage, mode, root, log, cleanup, out, crash_at=None, tear=None, trace=None, fault=None,
-               inputs=None, crash_children=False):
+               inputs=None, crash_children=False, prelude_fault=None):
     def fn():
         from pipefunc.map import load_outputs
 
         fsmon.FsMon(root, crash_at, tear, trace, crash_children=crash_children).install()
         res = {}
+        if prelude_fault is not None:
+            # THIS process first attempts the map with the default process pool; a pool worker dies inside one user call
+            # (os._exit).  The attempt fails; the judged map below then runs in the same process.
+            def _hung(signum, frame):  # the attempt with the dying worker never came back (CPython's pool, not our subject)
+                os._exit(97)
+            signal.signal(signal.SIGALRM, _hung)
+            signal.alarm(60)
+            try:
+                p0 = mapgen.build_pipeline(case, log=log + ".prelude", fault=prelude_fault)
+                p0.map(inputs if inputs is not None else mapgen.make_inputs(case), run_folder=root,
+                       internal_shapes=mapgen.internal_shapes_arg(case), storage=storage, cleanup=True, parallel=True)
+                res["prelude"] = "returned"
+            except BaseException as e:  # noqa: BLE001
+                res["prelude"] = type(e).__name__
+            finally:
+                signal.alarm(0)
         try:
             pipeline = mapgen.build_pipeline(case, log=log, fault=fault)
             kw = {"parallel": False}
             ex = None
+            if mode == "default":
+                kw = {"parallel": True}
             if mode == "thread":
                 from concurrent.futures import ThreadPoolExecutor
 
@@ -219,6 +237,22 @@ def plan(tier, seed):
                 if mode == "seq":
                     for c in range(1, ncalls + 1):
                         descs.append({"w": w, "st": st, "mode": mode, "kind": "raise", "call": c})
+                    # the same under pools: the elements AFTER the failing one are computed and stored by other workers, so
+                    # the folder is left with a hole before its end (a state no sequential interruption produces)
+                    if st != "dict":
+                        mapped_calls = sum(len(exp) for f_, exp in zip(WORKLOADS[w]["funcs"], [mapgen.oracle(WORKLOADS[w])[1][f_["name"]] for f_ in WORKLOADS[w]["funcs"]])
+                                           if f_["mapspec"] and any(isinstance(m, list) for m in f_["modes"].values()))
+                        k_ = 0
+                        for f_ in WORKLOADS[w]["funcs"]:
+                            n_ = len(mapgen.oracle(WORKLOADS[w])[1][f_["name"]])
+                            if f_["mapspec"] and any(isinstance(m, list) for m in f_["modes"].values()):
+                                for c in range(k_ + 1, k_ + n_ + 1):
+                                    descs.append({"w": w, "st": st, "mode": "default", "kind": "same-process", "call": c})
+                            k_ += n_
+                    if w in ("map3+reduce", "tuple-out") or tier == "thorough":
+                        for pmode in (["thread", "process"] if st != "dict" else ["thread"]):
+                            for c in range(1, ncalls + 1):
+                                descs.append({"w": w, "st": st, "mode": pmode, "kind": "raise", "call": c})
                 if tier == "quick" and mode == "seq" and w == "map3+reduce" and st in ("file_array", "dict"):
                     # an older complete run with other inputs lives in the folder; the new run (cleanup=True) dies at event k
                     for k in list(range(1, 16)) + list(range(16, len(ev) + 8, 2)):
@@ -285,11 +319,14 @@ def _stored_calls(case, storage, done, exp_calls):
     return stored
 
 
-def check_resume(v, desc, case, env, exp_calls, root, scratch, done, tagname, sigctx):
+def check_resume(v, desc, case, env, exp_calls, root, scratch, done, tagname, sigctx, prelude_fault=None):
     """Resume in `root` with cleanup=False and compare with the oracle."""
     log2 = os.path.join(scratch, f"{tagname}.log")
     out2 = os.path.join(scratch, f"{tagname}.out")
-    rc = _map_child(case, desc["st"], desc["mode"], root, log2, False, out2)
+    rc = _map_child(case, desc["st"], desc["mode"], root, log2, False, out2, prelude_fault=prelude_fault)
+    if rc == 97:
+        v.count("prelude_attempt_hung_not_judged")
+        return True
     v.count("resumes")
     w = dict(workload=desc["w"], storage=desc["st"], mode=desc["mode"], crash=sigctx, desc=desc)
     try:
@@ -401,6 +438,13 @@ def run_case(desc):
             v.count(f"crash_at_{last[1]}_in_worker")
             done = fsmon.complete_files(ev)
             check_resume(v, desc, case, env, exp_calls, root, scratch, done, "resume", f"worker-death:{last[1]}:{_bucket(last[2])}")
+        elif desc["kind"] == "same-process":
+            # a pool worker dies inside the c-th user call of a map on the DEFAULT pool; the same process then resumes
+            order = [(f["name"], t) for f in case["funcs"] for _, t in exp_calls[f["name"]]]
+            fname, t = order[desc["call"] - 1]
+            v.count("same_process_resumes_after_worker_death")
+            check_resume(v, desc, case, env, exp_calls, root, scratch, set(), "resume", f"same-process-after-worker-death:{fname}",
+                         prelude_fault={fname: {"kill": {t: 9}}})
         elif desc["kind"] == "raise":
             fname = None
             # the c-th probe call overall raises: translate to (function, term) using the recorded order = oracle order
@@ -461,4 +505,7 @@ def finalize(agg, tier, seed):
         floors.append("fewer than 20 crashes over an older run in the same folder")
     if c.get("stored_elements_at_crash", 0) < 100:
         floors.append("fewer than 100 stored elements observed at crash time (recompute monitor idle)")
+    sp = agg.counters.get("same_process_resumes_after_worker_death", 0) - agg.counters.get("prelude_attempt_hung_not_judged", 0)
+    if sp < 12:
+        floors.append(f"only {sp} same-process resumes after a worker death were judged (< 12)")
     return floors, {"exhaustive_note": "every recorded logical fs event of every listed workload x storage is a crash point"}
